@@ -189,6 +189,12 @@ func Decide(t fataler, s *graph.Scenario, obsOrders []int, tag string) {
 				t.Fatalf("C05: %s: field %s was populated only after the first initialization callback (snapshot then: %v, final: %v)\n%s", c.Name, f, l.firstSnap, final, desc)
 			}
 		}
+		// ... and everything the model says is satisfiable was in fact populated by then
+		for _, p := range g.Points[c] {
+			if len(p.Cands) > 0 && !have[p.Field.Name] {
+				t.Fatalf("C05: %s: injection point %s has admissible targets %v but was not populated when the initialization callbacks ran (snapshot %v)\n%s", c.Name, p.Field.Name, p.Cands, l.firstSnap, desc)
+			}
+		}
 		if !have["V"] {
 			t.Fatalf("C05: %s: configuration value field V not set before initialization callbacks (snapshot %v)\n%s", c.Name, l.firstSnap, desc)
 		}
